@@ -99,6 +99,10 @@ fn reply_body(kind: &str) -> Vec<u8> {
             v
         }
         "64k" => (0..65536u32).map(|i| (i.wrapping_mul(31) ^ (i >> 8)) as u8).collect(),
+        "11mib" => {
+            const PAT: &[u8] = b"0123456789abcdefghijklmnopqrstuvwxyz {}[]:,\"\n";
+            (0..(11usize * 1024 * 1024 + 3)).map(|i| PAT[i % PAT.len()]).collect()
+        }
         "chunked" => (0..3000u32).map(|i| b"{\"k\":[0,1,2,3,4,5,6,7,8,9]}\r\n"[(i % 29) as usize]).collect(),
         "close-delimited" => (0..2000u32).map(|i| b"0123456789abcdef\n"[(i % 17) as usize]).collect(),
         _ => panic!("unknown reply body kind {kind}"),
@@ -803,9 +807,12 @@ fn flow_script(flow: &str) -> (bool, Vec<Rep>) {
         _ => panic!("unknown flow {flow}"),
     }
 }
-const FLOWS: [&str; 10] = [
+const FLOWS: [&str; 11] = [
     "code-200", "code-400-invalid_grant", "code-401-invalid_client", "code-400-charset", "code-500-html", "code-200-html",
     "code-503-empty", "code-200-notjson", "device-pending-slowdown-200", "device-pending-denied",
+    // not an OAuth flow: three calls through ONE client value on ONE thread — a form POST, a bodiless GET (what a caller
+    // fetching metadata through the same client sends), a shorter form POST: no call may inherit anything from the one before
+    "seq-post-get-post",
 ];
 
 #[derive(Clone, Debug, PartialEq, Default)]
@@ -920,7 +927,84 @@ fn flow_reqwest_async(device: bool, base: &str) -> FlowObs {
     FlowObs { class, per_request: rec.into_inner(), sleeps: sleeps.into_inner() }
 }
 
+fn run_sequence(fc: &FlowCase) -> Result<CaseRun, String> {
+    let j = Some("application/json".to_string());
+    let replies: [&[u8]; 3] = [br#"{"n":1}"#, br#"{"keys":[]}"#, br#"{"n":3,"pad":"xxxxxxxxxxxxxxxxxxxxxxxxxxxxxxxxxxxxxxxx"}"#];
+    let actions: Vec<Action> = replies.iter().map(|b| Action::Reply { status: 200, content_type: j.clone(), location: false, body: b.to_vec(), framing: Framing::ContentLength }).collect();
+    let server = Server::start(actions).map_err(|e| format!("cannot start loopback server: {e}"))?;
+    let base = format!("http://127.0.0.1:{}", server.addr.port());
+    let first = library_request(&base, "1k");
+    let third = library_request(&base, "small");
+    let second: HttpRequest = http::Request::builder().method(http::Method::GET).uri(format!("{base}/.well-known/meta?x=1")).header(http::header::ACCEPT, "application/json").body(Vec::new()).unwrap();
+    let want: Vec<(Vec<u8>, Vec<u8>, Vec<u8>)> = [&first, &second, &third]
+        .iter()
+        .map(|r| (r.method().as_str().as_bytes().to_vec(), r.uri().path_and_query().map(|p| p.as_str().as_bytes().to_vec()).unwrap_or_default(), r.body().clone()))
+        .collect();
+    let a = fc.adapter.clone();
+    let reqs = vec![first, second, third];
+    let got = watchdog(Duration::from_secs(15), move || -> Vec<Ret> {
+        match a.as_str() {
+            "reqwest" => {
+                let rt = current_thread_rt();
+                let c = reqwest_async_client();
+                reqs.into_iter().map(|r| to_ret(rt.block_on(AsyncHttpClient::call(&c, r)))).collect()
+            }
+            "reqwest-blocking" => {
+                let c = reqwest_blocking_client();
+                reqs.into_iter().map(|r| to_ret(SyncHttpClient::call(&c, r))).collect()
+            }
+            "curl" => reqs.into_iter().map(|r| to_ret(SyncHttpClient::call(&CurlHttpClient, r))).collect(),
+            "ureq" => {
+                let c = ureq_agent();
+                reqs.into_iter().map(|r| to_ret(SyncHttpClient::call(&c, r))).collect()
+            }
+            x => panic!("unknown adapter {x}"),
+        }
+    });
+    let captured = server.finish();
+    let sig = |clause: &str| format!("C09:{}:{}", fc.adapter, clause);
+    let mut oracle = Vec::new();
+    let summary;
+    match got {
+        None => {
+            oracle.push((sig("hang"), "the three-call sequence did not finish in 15 s".to_string()));
+            summary = format!("{} flow={} HANG requests_seen={}", fc.adapter, fc.flow, captured.len());
+        }
+        Some(Err(_)) => {
+            oracle.push((sig("panic"), "the three-call sequence panicked".to_string()));
+            summary = format!("{} flow={} PANIC", fc.adapter, fc.flow);
+        }
+        Some(Ok(rets)) => {
+            summary = format!("{} flow={} requests_seen={} methods={:?}", fc.adapter, fc.flow, captured.len(), captured.iter().map(|c| String::from_utf8_lossy(&c.method).to_string()).collect::<Vec<_>>());
+            if captured.len() != 3 {
+                oracle.push((sig("request-count"), format!("three calls, the server saw {} requests", captured.len())));
+            }
+            for (i, (c, (m, tgt, body))) in captured.iter().zip(want.iter()).enumerate() {
+                if &c.method != m {
+                    oracle.push((sig("request-method"), format!("call {} of the sequence: built {}, the server saw {}", i + 1, String::from_utf8_lossy(m), String::from_utf8_lossy(&c.method))));
+                }
+                if &c.target != tgt {
+                    oracle.push((sig("request-target"), format!("call {} of the sequence: built {}, the server saw {}", i + 1, String::from_utf8_lossy(tgt), String::from_utf8_lossy(&c.target))));
+                }
+                if &c.body != body || !c.complete {
+                    oracle.push((sig("request-body"), format!("call {} of the sequence: built {} body bytes, the server saw {} (complete: {})", i + 1, body.len(), c.body.len(), c.complete)));
+                }
+            }
+            for (i, (r, b)) in rets.iter().zip(replies.iter()).enumerate() {
+                match r {
+                    Ret::Ok { status: 200, body, .. } if body == b => {}
+                    other => oracle.push((sig("body-altered"), format!("call {} of the sequence: scripted reply {} bytes, adapter returned {:?}", i + 1, b.len(), other))),
+                }
+            }
+        }
+    }
+    Ok(CaseRun { oracle, line: None, summary, req_headers: Vec::new() })
+}
+
 fn run_flow(fc: &FlowCase) -> Result<CaseRun, String> {
+    if fc.flow == "seq-post-get-post" {
+        return run_sequence(fc);
+    }
     let (device, script) = flow_script(&fc.flow);
     // reference: in-memory closure client answering from the same script
     let idx = RefCell::new(0usize);
@@ -1021,6 +1105,12 @@ fn full_matrix() -> Vec<Case> {
             }
             for f in FAULTS {
                 v.push(Case { adapter: a.into(), req_body: rb.into(), server: ServerSpec::Fault { fault: f.into() } });
+            }
+            // a LARGE reply (11 MiB + 3 bytes: a JWKS-sized or paginated document; past every "sane" 1 / 8 / 10 MiB buffer bound)
+            if rb == "small" {
+                for st in [200u16, 400] {
+                    v.push(Case { adapter: a.into(), req_body: rb.into(), server: ServerSpec::Reply { status: st, content_type: Some("application/json".into()), body: "11mib".into() } });
+                }
             }
         }
     }
